@@ -16,11 +16,11 @@ func init() {
 				"C09.attrib (wire signatures carry no validator; the validator is filled from the event creator's repertoire entry only; frame events do not feed the signature pool), " +
 				"C09.anchor (anchor raised only under len(Signatures) > TrustCount() of the block round's set — strict — and a monotone index; writers of AnchorBlock), " +
 				"C09.verify (Block.Verify yields true only through the ECDSA check of this signature over the body hash — no shortcut), C09.sign (signBlock only from commit, after the application answered without error, after the state hash / receipts were stored into the block, only if the node belongs to the block's set; Block.Sign signs Body.Hash()). " +
-				"C09.threshold (the anchor test compares with the trust count of the block round's set: every comparison is strict, the memoised thresholds are written only by their getters, and a derived set never inherits its parent's memo; shared with C19.use), C09.delivered (a node signs a block only after its application answered: the application proxies report a failed CommitBlock as an error, never as an empty success — otherwise core.commit signs a block the application never received, over a body without the returned state hash; shared with C20.err), C09.digest (what is signed and verified — BlockBody.Hash — is SHA256 over the encoding of the whole body), C09.reset (a block received by fast-forward is stored with a signature map rebuilt from the signatures that passed the membership test and Block.Verify — the responder's extra entries are not recorded). NOT decided: signature validity as a value-level statement (that is ECDSA)."},
+				"C09.threshold (the anchor test compares with the trust count of the block round's set: every comparison is strict, the memoised thresholds are written only by their getters, and a derived set never inherits its parent's memo; shared with C19.use), C09.delivered (a node signs a block only after its application answered: the application proxies report a failed CommitBlock as an error, never as an empty success — otherwise core.commit signs a block the application never received, over a body without the returned state hash; shared with C20.err), C09.commit (the block on disk is rewritten every time SetBlock is called — the database writer never returns success without a commit — so the copy served as anchor after cache eviction carries the signatures collected since; shared with C16.commit), C09.digest (what is signed and verified — BlockBody.Hash — is SHA256 over the encoding of the whole body), C09.reset (a block received by fast-forward is stored with a signature map rebuilt from the signatures that passed the membership test and Block.Verify — the responder's extra entries are not recorded). NOT decided: signature validity as a value-level statement (that is ECDSA)."},
 		Rules: []ruleFunc{c09record, c09attrib, c09anchor, c09sign, func(p *Prog, r *Report) {
 			r.Rule("C09.verify", 1, "Block.Verify returns true only through keys.Verify over Body.Hash() with the signer's key and this signature")
 			verifyProvenance(p, r, "C09.verify", []string{"Block"})
-		}, c09reset, func(p *Prog, r *Report) { digestRule(p, r, "C09.digest", []string{"BlockBody"}) }, func(p *Prog, r *Report) { proxyErrRule(p, r, "C09.delivered") }, func(p *Prog, r *Report) { thresholdUseRule(p, r, "C09.threshold") }, func(p *Prog, r *Report) { trustRule(p, r, "C09.trust") }},
+		}, c09reset, func(p *Prog, r *Report) { digestRule(p, r, "C09.digest", []string{"BlockBody"}) }, func(p *Prog, r *Report) { proxyErrRule(p, r, "C09.delivered") }, func(p *Prog, r *Report) { thresholdUseRule(p, r, "C09.threshold") }, func(p *Prog, r *Report) { trustRule(p, r, "C09.trust") }, func(p *Prog, r *Report) { commitRule(p, r, "C09.commit") }},
 	})
 }
 
